@@ -324,6 +324,16 @@ func (w *world) applyInner(e simEvent) error {
 		n = w.nodes[e.N]
 	}
 	switch e.K {
+	case "T", "F", "SS", "SW", "ST", "LU", "CL", "AD", "SN", "K", "SD":
+		if n == nil || !n.up {
+			return fmt.Errorf("%w: %v on a node that is not running", errSimHarness, e)
+		}
+	case "S":
+		if n == nil || n.up {
+			return fmt.Errorf("%w: %v on a running node", errSimHarness, e)
+		}
+	}
+	switch e.K {
 	case "D":
 		c := w.connByKey(e.C)
 		if c == nil {
@@ -417,6 +427,19 @@ func (w *world) applyInner(e simEvent) error {
 			n.r.ldr.replUpdateCh <- <-d.updCh
 		}
 		return n.stepLoop(nil)
+	case "RC", "RS", "RH", "RR", "RF":
+		if n == nil || !n.up || n.drivers[e.F] == nil {
+			return fmt.Errorf("%w: no replication stream n%d->f%d", errSimHarness, e.N+1, e.F)
+		}
+		return w.applyDriver(n, e)
+	default:
+		return w.applyDriver(n, e)
+	}
+	return fmt.Errorf("%w: unknown event %v", errSimHarness, e) // unreachable
+}
+
+func (w *world) applyDriver(n *simNode, e simEvent) error {
+	switch e.K {
 	case "RC":
 		d := n.drivers[e.F]
 		d.guard("connect", d.connect)
